@@ -132,3 +132,17 @@ package interp
 //@   requires [assume] f != nil
 //@   loop 6
 //@   step spread-argument-shares-the-callers-slice: variadic >= 0 && i >= variadic && rvType(v(f)) == rvType(vararg) ==> rvIface(vararg) == rvIface(v(f)) && rvInt(vararg) == rvInt(v(f))
+
+// callBin, plain call of a host function whose results stay in the frame (default form): result i is
+// stored in slot n.findex+i — a function-typed result replaces the slot, any other result is copied into
+// it — and no other slot of the frame is touched by that store.
+//@ lit callBin exec#6 (f) (ret)
+//@   props C07
+//@   opt safety = off
+//@   opt fn-values = pure
+//@   opt opaque-calls = *
+//@   opt opaque-havoc = none
+//@   requires [assume] f != nil && n != nil
+//@   loop 2
+//@   step function-result-replaces-its-own-slot: rvKind(out[i]) == reflect.Func ==> getFrame(f, n.level).data[n.findex+i] == out[i]
+//@   step only-its-own-slot-is-replaced: forall(k, 0, len(getFrame(f, n.level).data), k != n.findex+i ==> getFrame(f, n.level).data[k] == old(getFrame(f, n.level).data[k]))
